@@ -2,6 +2,7 @@
 #pragma once
 #include <cstdint>
 #include <cstdio>
+#include <csignal>
 #include <cstdlib>
 #include <exception>
 #include <sstream>
@@ -47,6 +48,9 @@ template <class C> std::string jarr(const C& c) {
 inline void install_terminate(Out& o) {
     static Out* op = &o;
     std::set_terminate([] { op->flush(); std::fprintf(stderr, "driver: terminate called\n"); _exit(70); });
+    // keep the trace written so far when the code under test crashes (not async-signal-safe, good enough here)
+    auto h = +[](int sig) { op->flush(); std::fprintf(stderr, "driver: fatal signal %d\n", sig); _exit(71); };
+    std::signal(SIGSEGV, h); std::signal(SIGBUS, h); std::signal(SIGFPE, h); std::signal(SIGABRT, h);
 }
 
 inline std::vector<long long> read_ints(std::istringstream& is, size_t n) {
